@@ -47,7 +47,7 @@ def subchecks():
             name="structure",
             run_case=run_case,
             strategy=lambda tier: gen.scenario(tier),
-            examples={"quick": 5000, "thorough": 250000},
+            examples={"quick": 15000, "thorough": 250000},
             case_timeout=20.0,
         ),
     ]
